@@ -80,9 +80,10 @@ struct Config {
     std::vector<int64_t> setup;   // configuration history before the effective calls: 1 sum16(crc), 2 sum32, 3 place(elsewhere), 4 buffer(other size), 5 place(final)
     size_t cks() const { return ck == 2 ? 4 : 2; }
     void load(const Json &j) {
-        int64_t n = j.geti("size", 8); if (n < 1) n = 1; if (n > 4096) n = 4096; N = (size_t)n;
-        int64_t p = j.geti("place"); if (p < 0) p = 0; if (p > 0xffff0000ll) p = 0xffff0000ll; place = (uint32_t)p;
+        int64_t n = j.geti("size", 8); if (n < 1) n = 1; if (n > 140000) n = 140000; N = (size_t)n;
         ck = (int)(j.geti("ck") % 3); if (ck < 0) ck = 0;
+        // the region (checksum + data) has to fit below 2^32; a placement beyond that is moved down so that the region ends exactly at the top
+        int64_t p = j.geti("place"); if (p < 0) p = 0; { int64_t maxp = 0x100000000ll - (int64_t)(N + cks()); if (p > maxp) p = maxp; } place = (uint32_t)p;
         init = ck == 0 ? 0 : (uint32_t)j.geti("init");
         aux = j.geti("aux", -1); if (aux > (int64_t)N + 8) aux = (int64_t)N + 8;
         setup.clear(); const Json &sj = j.get("setup");
@@ -129,7 +130,7 @@ struct PsHarness : Harness {
     std::vector<std::string> props() const override { return {"C10", "C11"}; }
     std::string level(const std::string &p) const override { return p == "C11" ? "fault_enumeration" : "exploration"; }
     std::vector<std::string> probes(const std::string &p) const override {
-        if (p == "C10") return {"aux_size_0", "aux_size_1", "aux_size_N_minus_1", "aux_size_N", "aux_size_N_plus_1", "partial_store_ends_at_last_octet", "overflow_pair_refused", "reconfigured_checksum_width", "placed_before_checksum_selection", "operation_failed_then_session_continued"};
+        if (p == "C10") return {"aux_size_0", "aux_size_1", "aux_size_N_minus_1", "aux_size_N", "aux_size_N_plus_1", "partial_store_ends_at_last_octet", "overflow_pair_refused", "reconfigured_checksum_width", "placed_before_checksum_selection", "operation_failed_then_session_continued", "image_of_64k_octets_or_more"};
         return {"crash_between_data_and_checksum_write", "tear_inside_checksum", "short_read_in_last_call", "validated_new_image_after_cut", "validated_old_image_after_cut"};
     }
     uint64_t runs(const std::string &p, const Tier &t) const override {
@@ -172,7 +173,7 @@ struct PsHarness : Harness {
         Json c = Json::obj();
         int64_t N = t.thorough() ? (r.chance(1, 6) ? r.range(25, 300) : r.range(1, 40)) : r.range(1, 24);
         c["size"] = (long long)N;
-        c["place"] = (long long)(r.chance(1, 2) ? 0 : (r.chance(1, 4) ? 0xffff0000ll - r.range(0, 3) * 4096 : r.range(1, 5000)));
+        c["place"] = (long long)(r.chance(1, 2) ? 0 : (r.chance(1, 4) ? (r.chance(1, 3) ? 0xffffffffll : 0xffff0000ll - r.range(0, 3) * 4096) : r.range(1, 5000)));
         c["ck"] = (long long)r.below(3);
         c["init"] = (long long)(r.chance(1, 2) ? 0 : (r.chance(1, 2) ? 0xffff : r.range(0, 0xffffffffll)));
         int64_t aux;
@@ -194,6 +195,13 @@ struct PsHarness : Harness {
             case 1: o["off"] = (long long)-1 - r.range(0, 3); o["len"] = (long long)r.range(1, 8); break; // offset+len wraps size_t (off = SIZE_MAX - x)
             case 2: o["off"] = (long long)r.range(1, N); o["len"] = (long long)-1 - r.range(0, 3); break;  // len = SIZE_MAX - x
             case 3: { int64_t len = r.range(1, N); o["off"] = (long long)(N - len); o["len"] = (long long)len; break; }  // ends at the last octet
+            case 4: {   // a pair that is in range once its upper 32 (or 16, 48) bits are dropped
+                static const int SH[] = {32, 32, 32, 16, 48, 33, 62};
+                int64_t off = r.range(0, N - 1), len = r.range(0, N - off); int sh = SH[r.below(7)];
+                int64_t hi = (int64_t)r.range(1, 3) << sh;
+                if (hi <= N) hi = (int64_t)1 << 32;
+                if (r.chance(1, 2)) off += hi; else len += hi;
+                o["off"] = (long long)off; o["len"] = (long long)len; break; }
             default: { int64_t off = r.range(0, N - 1); o["off"] = (long long)off; o["len"] = (long long)r.range(0, N - off); }
             }
         } else if (k == "reset") o["fill"] = (long long)r.below(256);
@@ -204,6 +212,12 @@ struct PsHarness : Harness {
         Json p = Json::obj();
         Json cf = gen_config(r, t);
         if (prop == "C11" && !t.thorough() && cf.geti("size") > 24) cf["size"] = 24;
+        if (prop == "C10" && r.chance(1, t.thorough() ? 400 : 1500)) {   // rarely an image of 64 KiB and more (sizes and offsets that do not fit 16 bits)
+            static const int64_t BIG[] = {65535, 65536, 65537, 65540, 70000, 131073};
+            int64_t bn = BIG[r.below(6)]; cf["size"] = (long long)bn;
+            static const int64_t AUX[] = {256, 4096, 65535, 65536, 65537, 1000};
+            cf["aux"] = (long long)(r.chance(1, 8) ? -1 : (r.chance(1, 6) ? bn : AUX[r.below(6)]));
+        }
         p["config"] = cf;
         int64_t N = cf.geti("size");
         Json ops = Json::arr();
@@ -231,6 +245,7 @@ struct PsHarness : Harness {
         World(Ctx &cc) : c(cc) {}
         void setup(const Json &plan) {
             cf.load(plan.get("config"));
+            if (cf.N >= 65536) COUNT("probe.image_of_64k_octets_or_more");
             med.c = &c; med.place = cf.place; med.region = cf.cks() + cf.N;
             med.mem.assign(GUARD + med.region + GUARD, 0);
             for (size_t i = 0; i < med.mem.size(); ++i) med.mem[i] = (uint8_t)(0x3c ^ (i * 29));
